@@ -124,7 +124,7 @@ inline std::vector<std::string> json_string_array(const std::string& line, const
     while (p < line.size() && line[p] != '"') {
       if (line[p] == '\\' && p + 1 < line.size()) {
         char c = line[p + 1];
-        if (c == 'n') s += '\n'; else if (c == 't') s += '\t'; else if (c == 'r') s += '\r';
+        if (c == 'n') s += '\n'; else if (c == 't') s += '\t'; else if (c == 'r') s += '\r'; else if (c == 'f') s += '\f'; else if (c == 'b') s += '\b';
         else if (c == 'u') { s += (char)strtol(line.substr(p + 2, 4).c_str(), nullptr, 16); p += 4; }
         else s += c;
         p += 2;
